@@ -146,22 +146,33 @@ def panic_sites(fx, strategies=('default', 'fill')):
     roots = P.root_groups(fx, strategies, ('r', 'g', 'w', 'c', 'a', 'k', 'f', 's'))
     seen, parent, _ = g.reach(list(roots.values()))
     sites = {}
+    lib = fx.lib
+    done = set()
     for i in sorted(seen):
         inst = g.inst[i]
         if not inst.get('walked'):
             continue
         b = g.body_of.get(i)
-        for e in inst['calls']:
-            if e.get('to') is None or e['cleanup']:
+        if b is None:
+            # compiler generated shim: use the instantiated lists
+            for a in inst.get('asserts', []):
+                if not a['cleanup']:
+                    sites.setdefault((g.fname(i), 'assert', a['msg'], a['bb']), (None, tuple(a['line']['macros']), i))
+            continue
+        if b.crate is not lib or b.key in lib.inlined_helpers or b.key in done:
+            continue
+        done.add(b.key)
+        # scan the (helper-inlined) local body: calls into panic entry points and compiler checks
+        for bb in range(b.n):
+            if b.is_cleanup(bb):
                 continue
-            to = g.inst[e['to']]
-            if not to.get('walked') and P.leaf_class(to) == 'panic':
-                k = (g.fname(i), 'call', to['path'], e['bb'])
-                sites.setdefault(k, (b, tuple(e['line']['macros']), i))
-        for a in inst.get('asserts', []):
-            if not a['cleanup']:
-                k = (g.fname(i), 'assert', a['msg'], a['bb'])
-                sites.setdefault(k, (b, tuple(a['line']['macros']), i))
+            t = b.term(bb)
+            if t['k'] == 'call':
+                c = t['callee']
+                if c.get('krate') in ('core', 'std', 'alloc') and P.leaf_class({'path': c.get('path') or '', 'kind': 'item'}) == 'panic':
+                    sites.setdefault((b.fname, 'call', c.get('path'), bb), (b, tuple(t['span']['macros']), i))
+            elif t['k'] == 'assert':
+                sites.setdefault((b.fname, 'assert', t['msg'], bb), (b, tuple(t['span']['macros']), i))
     return g, parent, sites, len(seen), len(roots)
 
 
